@@ -99,7 +99,7 @@ fn main() {
         ("fs_obs_udp-send-error", 1000.0),
         ("fs_obs_udp-recv-error", 1000.0),
         ("fs_scripted_udp-silent", 800.0),
-        ("fs_udp_retransmissions_seen", 3000.0),
+        ("fs_udp_retransmissions_seen", 1500.0),
         ("fs_obs_tcp-connect-timeout", 1500.0),
         ("fs_obs_tcp-refused", 1500.0),
         ("fs_scripted_tcp-conn-slower-than-connect_timeout", 500.0),
